@@ -11,6 +11,7 @@ TECHNIQUE = 'runtime monitoring: state invariant sampled after every event-loop 
 RULE = ('programs x placements of K<=2 (thorough: sampled K=3) requests from {pause,play,kill,resume,fail,late ok/raising callback} at every '
         'loop-callback slot, followed by a post-termination barrage of every control call; a case is distinct by (program, plan), '
         'non-trivial when at least one request was applied and the process terminated')
+RULE += ('; also: aborted / restarted stepping tasks, one-shot state callbacks, programs with awkward values (uncopyable outputs, bare Kill()), processes recreated from a checkpoint, observers and cleanups that fail (function / partial / callable object), and the repository\'s own test suite run under the same edge oracle (pv/suitemon.py)')
 ASSUMPTIONS = ['lifecycle hooks do not raise (C03 owns that)', 'single-threaded deterministic event loop, no timers',
                'private attributes are read for coverage accounting only']
 REQUIRED = ['transitions', 'acts_after_terminal', 'samples', 'oneshot_callbacks_fired', 'recreated_with_broken_observers', 'failing_cleanup_runs', 'suite_edges', 'suite_processes']
